@@ -33,6 +33,8 @@ func (s Sort) SMT() string {
 		return "Bool"
 	case KBV:
 		return fmt.Sprintf("(_ BitVec %d)", s.W)
+	case KReal:
+		return "Real"
 	default:
 		return "(_ FloatingPoint 11 53)"
 	}
@@ -223,7 +225,7 @@ func evalOp(op Op, s Sort, p, q int, a []*Term) (uint64, bool) {
 		}
 		return get(2), true
 	case OEq:
-		if a[0].S.K == KFP {
+		if a[0].S.K == KFP || a[0].S.K == KReal {
 			return 0, false
 		}
 		return b2u(get(0) == get(1)), true
@@ -366,6 +368,20 @@ func evalOp(op Op, s Sort, p, q int, a []*Term) (uint64, bool) {
 		case 4:
 			return math.Float64bits(math.RoundToEven(f)), true
 		}
+	case ORAdd:
+		return math.Float64bits(a[0].F() + a[1].F()), true
+	case ORSub:
+		return math.Float64bits(a[0].F() - a[1].F()), true
+	case ORMul:
+		return math.Float64bits(a[0].F() * a[1].F()), true
+	case ORDiv:
+		return math.Float64bits(a[0].F() / a[1].F()), true
+	case ORNeg:
+		return math.Float64bits(-a[0].F()), true
+	case ORLt:
+		return b2u(a[0].F() < a[1].F()), true
+	case ORLe:
+		return b2u(a[0].F() <= a[1].F()), true
 	case OFBits:
 		return get(0), true
 	case OFFromBits:
@@ -396,6 +412,8 @@ func (st *Store) constOf(s Sort, c uint64) *Term {
 		return st.Bool(c != 0)
 	case KBV:
 		return st.BV(s.W, c)
+	case KReal:
+		return st.mk(&Term{Op: OConst, S: SReal, C: c})
 	default:
 		return st.mk(&Term{Op: OConst, S: SFP, C: c})
 	}
@@ -1181,10 +1199,15 @@ func (t *Term) ref() string {
 			return "false"
 		case KBV:
 			return bvLit(t.S.W, t.C)
+		case KReal:
+			return realLit(t.F())
 		default:
 			return fpLit(t.C)
 		}
 	case OVar:
+		if t.S.K == KReal && t.P == 1 {
+			return "(to_real |" + t.N + "|)"
+		}
 		return "|" + t.N + "|"
 	}
 	return fmt.Sprintf("t%d", t.ID)
@@ -1224,6 +1247,9 @@ func (t *Term) body() string {
 		return fmt.Sprintf("(fp.roundToIntegral %s %s)", rmNames[t.P], r(0))
 	case OFFromBits:
 		return fmt.Sprintf("((_ to_fp 11 53) %s)", r(0))
+	}
+	if s, ok := relaxBody(t); ok {
+		return s
 	}
 	name, ok := opNames[t.Op]
 	if !ok {
